@@ -390,7 +390,9 @@ func cmdRun(args []string) int {
 		return 2
 	}
 	for _, h := range ev.Harnesses {
-		if len(h.Vacuous) > 0 {
+		// vacuity is judged only where nothing was found: a harness whose assertion fails on
+		// every path legitimately never reaches its end marker
+		if len(h.Vacuous) > 0 && len(h.Violations) == 0 && len(h.KnownSeen) == 0 {
 			fmt.Fprintln(os.Stderr, "ENGINE-FAILURE: vacuous harness", h.Harness, h.Vacuous)
 			return 2
 		}
